@@ -29,6 +29,7 @@ var families = map[string]famDef{
 	"badroots":  {"C19", famBadRoots, Runner{}},
 	"backends":  {"C18", famBackends, Runner{}},
 	"flush":     {"C03", famFlush, exactRunner},
+	"versions":  {"C02", famVersions, exactRunner},
 	"filecrash": {"C17", famFileCrash, Runner{}},
 	"diffcost":  {"C15", famDiffCost, exactRunner},
 }
